@@ -144,6 +144,8 @@ pub struct Engine {
     pub t0: Instant,
     keep_dir: bool,
     release: std::sync::Arc<std::sync::atomic::AtomicBool>,
+    /// set by the helper thread of `write_async` when every piece has been written
+    pub written: std::sync::Arc<std::sync::atomic::AtomicBool>,
 }
 
 pub struct SpawnOpts {
@@ -222,7 +224,7 @@ impl Engine {
                 }
             }
         });
-        Ok(Engine { child, stdin, rx, pid, workdir, transcript: Vec::new(), stdout_closed: false, t0: Instant::now(), keep_dir: false, release: Default::default() })
+        Ok(Engine { child, stdin, rx, pid, workdir, transcript: Vec::new(), stdout_closed: false, t0: Instant::now(), keep_dir: false, release: Default::default(), written: Default::default() })
     }
 
     /// Record the send event, then write the line (history at the client boundary).
@@ -257,10 +259,12 @@ impl Engine {
     pub fn write_async(&mut self, pieces: Vec<Vec<u8>>, close: bool, pause: Option<Duration>) -> std::thread::JoinHandle<()> {
         let stdin = self.stdin.take();
         let release = self.release.clone();
+        let written = self.written.clone();
         std::thread::spawn(move || {
             if let Some(mut si) = stdin {
                 for p in &pieces {
                     if si.write_all(p).is_err() {
+                        written.store(true, Ordering::Relaxed);
                         return;
                     }
                     let _ = si.flush();
@@ -268,6 +272,7 @@ impl Engine {
                         std::thread::sleep(d);
                     }
                 }
+                written.store(true, Ordering::Relaxed);
                 // keep the stream open until the engine is killed / dropped
                 while !close && !release.load(Ordering::Relaxed) {
                     std::thread::sleep(Duration::from_millis(5));
@@ -418,7 +423,7 @@ impl Engine {
                         Dir::Out => "<<",
                         Dir::Err => "!!",
                     },
-                    e.line
+                    if e.line.len() > 400 { let mut k = 400; while !e.line.is_char_boundary(k) { k -= 1; } format!("{}...[{} bytes]", &e.line[..k], e.line.len()) } else { e.line.clone() }
                 )
             })
             .collect()
